@@ -1,0 +1,58 @@
+//go:build verif
+
+package db
+
+import (
+	lru "github.com/hashicorp/golang-lru"
+	"github.com/syndtr/goleveldb/leveldb"
+	"github.com/syndtr/goleveldb/leveldb/opt"
+	"github.com/syndtr/goleveldb/leveldb/storage"
+
+	"github.com/zenon-network/go-zenon/common"
+)
+
+// Hooks for the verification harness under /verif (build tag verif only).
+
+// NewLevelDBManagerOnStorage is NewLevelDBManager over a caller supplied goleveldb storage, so that the
+// harness can inject write faults (crash points) and reopen the same storage.
+func NewLevelDBManagerOnStorage(stor storage.Storage) (Manager, error) {
+	ldb, err := leveldb.Open(stor, &opt.Options{OpenFilesCacheCapacity: getOpenFilesCacheCapacity()})
+	if err != nil {
+		return nil, err
+	}
+	l1Cache, err := lru.New(l1CacheSize)
+	common.DealWithErr(err)
+	l2Cache, err := lru.New(l2CacheSize)
+	common.DealWithErr(err)
+	return &ldbManager{
+		location: "storage",
+		l1Cache:  l1Cache,
+		l2Cache:  l2Cache,
+		ldb:      ldb,
+	}, nil
+}
+
+// VerifEvictCaches drops every cached historical overlay (models LRU eviction).
+func VerifEvictCaches(m Manager) {
+	if l, ok := m.(*ldbManager); ok {
+		l.l1Cache.Purge()
+		l.l2Cache.Purge()
+	}
+}
+
+// VerifRawDump returns every raw key/value pair of the underlying leveldb (all prefixes), in key order.
+func VerifRawDump(m Manager) [][2][]byte {
+	l, ok := m.(*ldbManager)
+	if !ok {
+		return nil
+	}
+	var out [][2][]byte
+	it := l.ldb.NewIterator(nil, nil)
+	defer it.Release()
+	for it.Next() {
+		k := append([]byte{}, it.Key()...)
+		v := append([]byte{}, it.Value()...)
+		out = append(out, [2][]byte{k, v})
+	}
+	return out
+}
